@@ -97,6 +97,10 @@ def ensure_facts(repo, quiet=False):
     out = os.path.join(CACHE, "facts", h + ".jsonl")
     info = {"facts_hash": h, "reused": True, "extract_s": 0.0}
     if _complete(out, h):
+        try:
+            os.utime(out, None)
+        except OSError:
+            pass
         return out, h, info
     lock = open(os.path.join(CACHE, "extract.lock"), "w")
     fcntl.flock(lock, fcntl.LOCK_EX)
@@ -155,7 +159,7 @@ def ensure_facts(repo, quiet=False):
             (os.path.join(d, f) for f in os.listdir(d) if f.endswith(".jsonl")),
             key=lambda p: os.path.getmtime(p),
         )
-        for p in fs[:-8]:
+        for p in fs[:-12]:
             for q in (p, p + ".pickle"):
                 try:
                     os.unlink(q)
